@@ -26,8 +26,14 @@ public:
                 received += data;
                 pending += data;
                 while (step < script.size() && pending.contains(script[step].first)) {
+                    // "@ID@" in a reply stands for the id attribute of the last <iq/> the client sent
+                    QByteArray lastId;
+                    if (int at = pending.lastIndexOf("<iq id=\""); at >= 0) {
+                        lastId = pending.mid(at + 8, pending.indexOf('"', at + 8) - at - 8);
+                    }
                     pending.clear();
                     QByteArray reply = script[step].second;
+                    reply.replace("@ID@", lastId);
                     bool close = reply.endsWith("<<close>>");
                     if (close) reply.chop(9);
                     sock->write(reply);
